@@ -301,20 +301,47 @@ def run(ctx):
                     ctx.oblig(True)
     # `^offset` names PC + offset, whatever the PC is: the PC-offset resolver hands the machine's PC itself to the checked addition (a PC
     # that was first clamped or otherwise adjusted makes `^1` name a word the user did not name whenever the PC has left user space)
-    rpo = ctx.fn("lace::debugger::Debugger::resolve_pc_offset")
-    aos = [(b, t) for b, t, c in rpo.calls() if c == "lace::debugger::Debugger::add_address_offset"]
-    ctx.need(len(aos) == 1, "resolve_pc_offset -> add_address_offset call")
-    base = kit.strip_refs(rpo.expr(aos[0][1]["args"][1], 10))
+    AO = "lace::debugger::Debugger::add_address_offset"
+    ML = "lace::debugger::command::MemoryLocation"
+    ctx.fn(AO)
+    pcv = prog.discr(ML, "PCOffset") if prog.adt(ML) else None
+    ctx.need(pcv is not None, "MemoryLocation::PCOffset variant")
     def is_live_pc(e):
         e = kit.strip_refs(e)
         return e[0] == "call" and str(e[1]).endswith("RunState::pc") and len(e[2]) == 1
-    okb = is_live_pc(base)
-    if not okb and base[0] == "arg":
-        # the PC is handed in by the caller: every caller passes the machine's PC itself
-        sites_ = [(g, t2) for n2, g in prog.fns.items() if g.bkind == "fn" for b2, t2, c2 in g.calls() if c2 == rpo.name]
-        okb = bool(sites_) and all(base[1] - 1 < len(t2["args"]) and is_live_pc(g.expr(t2["args"][base[1] - 1], 10)) for g, t2 in sites_)
-        if not okb and sites_:
-            base = kit.strip_refs(sites_[0][0].expr(sites_[0][1]["args"][base[1] - 1], 10))
+    def base_of(g, t2, depth=0):
+        """(is the live PC, the base expression) for the second argument of an add_address_offset call in `g`"""
+        e = kit.strip_refs(g.expr(t2["args"][1], 10))
+        if is_live_pc(e):
+            return True, e
+        if e[0] == "arg" and depth < 3:
+            # the PC is handed in by the caller: every caller passes the machine's PC itself
+            ss = [(h, t3) for h in prog.fns.values() if h.bkind == "fn" for b3, t3, c3 in h.calls() if c3 == g.name]
+            if ss and all(e[1] - 1 < len(t3["args"]) and is_live_pc(h.expr(t3["args"][e[1] - 1], 10)) for h, t3 in ss):
+                return True, e
+            if ss:
+                return False, kit.strip_refs(ss[0][0].expr(ss[0][1]["args"][e[1] - 1], 10))
+        return False, e
+    aos = []
+    for r0 in sorted(resolvers):
+        g = prog.fns[r0]
+        for b0, place, targets, other in kit.discr_switches(g, ML):
+            if pcv not in targets:
+                continue
+            arm = kit.dominated_region(g, targets[pcv])
+            # the checked addition in the `^offset` arm itself, or in the one debugger routine the arm hands the offset to
+            todo, seen_ = [(g, bb, t2, c2) for bb, t2, c2 in g.calls() if bb in arm], set()
+            while todo:
+                h, bb, t2, c2 = todo.pop()
+                if c2 == AO:
+                    aos.append((h, t2))
+                elif c2 in scope and c2 not in seen_ and c2 != r0:
+                    seen_.add(c2)
+                    h2 = prog.fns[c2]
+                    todo += [(h2, b3, t3, c3) for b3, t3, c3 in h2.calls()]
+    ctx.need(len(aos) == 1, "the checked addition of the `^offset` arm (found %d)" % len(aos))
+    okb, base = base_of(*aos[0])
+    aos = [(None, aos[0][1])]
     ctx.oblig(okb, {"^offset base": expr_str(base, 80)}, "the live PC, unchanged")
     if not okb:
         ctx.violation("pc-offset-base", sp_file_line(aos[0][1].get("sp")), "`^offset` is resolved from `%s`, not from the machine's PC itself: with the PC outside user space the "
